@@ -44,6 +44,10 @@ func runExtras(eng *Engine, id, tier string, seed int64, work string) []extraRes
 		res = append(res, runBoundedCurves(eng, work, id, []string{"encode"}))
 	case "C14":
 		res = append(res, runBoundedCurves(eng, work, id, []string{"decode16.below-identity-margin"}))
+	case "C08":
+		res = append(res, runBoundedICC(eng, work, []string{"delivery."}))
+	case "C17":
+		res = append(res, runBoundedICC(eng, work, []string{"tagtable.", "description."}))
 	case "C07", "C09":
 		res = append(res, checkRecovers(eng, id))
 	case "C11":
@@ -154,6 +158,73 @@ func runBoundedCurves(eng *Engine, work, id string, prefixes []string) extraResu
 		"oracle": "exact rational arithmetic (math/big), independent of math.Pow",
 	}
 	r.Samples = append(r.Samples, map[string]interface{}{"bounded": "srgb.From16Bit(i) vs ((i/65535+0.055)/1.055)^(12/5) within 3e-7 for every i"})
+	return r
+}
+
+// runBoundedICC injects /verif/bounded/icc_profiles_test.go.tmpl into meta/icc with -overlay and runs the
+// real ProfileReader over the enumerated profiles x delivery schedules (a bounded stand-in for what the
+// abstract-map model of the tag table cannot express: never counted as proved).
+func runBoundedICC(eng *Engine, work string, prefixes []string) extraResult {
+	r := extraResult{Obligations: 1}
+	tmpl, err := os.ReadFile(filepath.Join(verifDir, "bounded", "icc_profiles_test.go.tmpl"))
+	if err != nil {
+		tmpl, err = os.ReadFile("/verif/bounded/icc_profiles_test.go.tmpl")
+	}
+	if err != nil {
+		r.Failures = append(r.Failures, extraFailure{Name: "bounded.icc#setup", Reason: "harness template missing", Detail: err.Error()})
+		return r
+	}
+	f := filepath.Join(work, "bounded_icc_test.go")
+	os.WriteFile(f, tmpl, 0o644)
+	overlay := map[string]map[string]string{"Replace": {filepath.Join(eng.repoDir, "meta", "icc", "vcgo_bounded_test.go"): f}}
+	ovb, _ := json.Marshal(overlay)
+	ovf := filepath.Join(work, "overlay_bounded_icc.json")
+	os.WriteFile(ovf, ovb, 0o644)
+	outf := filepath.Join(work, "bounded_icc.json")
+	cmd := exec.Command("go", "test", "-overlay", ovf, "-vet=off", "-count=1", "-timeout", "600s", "-run", "TestVcgoBoundedICC", "./meta/icc")
+	cmd.Dir = eng.repoDir
+	cmd.Env = append(goEnv(), "VCGO_BOUNDED_OUT="+outf)
+	b, _ := cmd.CombinedOutput()
+	var res struct {
+		Evaluations int64  `json:"evaluations"`
+		Domain      string `json:"domain"`
+		Failures    []struct {
+			Check string `json:"check"`
+			Index int    `json:"index"`
+			Got   string `json:"got"`
+		} `json:"failures"`
+	}
+	jb, e2 := os.ReadFile(outf)
+	if e2 != nil || json.Unmarshal(jb, &res) != nil {
+		r.Failures = append(r.Failures, extraFailure{Name: "bounded.icc#run", Reason: "bounded harness did not complete", Detail: firstLines(string(b), 30)})
+		return r
+	}
+	bad := false
+	for _, fl := range res.Failures {
+		match := false
+		for _, pre := range prefixes {
+			if strings.HasPrefix(fl.Check, pre) {
+				match = true
+			}
+		}
+		if !match {
+			continue
+		}
+		bad = true
+		r.Failures = append(r.Failures, extraFailure{Name: "bounded.icc#" + fl.Check,
+			Reason:  "the real ProfileReader, run on an enumerated synthetic profile, violates the check",
+			Detail:  fmt.Sprintf("check %s profile #%d: %s", fl.Check, fl.Index, fl.Got),
+			Witness: true})
+	}
+	if !bad {
+		r.Discharged = 1
+	}
+	r.Bounded = map[string]interface{}{
+		"name": "ICC profile reader over synthetic profiles and delivery schedules", "label": "bounded (execution of the real code, not deduction)",
+		"domain": res.Domain, "exhaustive": false, "evaluations": res.Evaluations, "checks": prefixes,
+		"oracle": "construction of the profile (declared offsets, sizes and strings) and the all-at-once read of the same bytes",
+	}
+	r.Samples = append(r.Samples, map[string]interface{}{"bounded": "ReadProfile(schedule(bytes)) == ReadProfile(bytes.NewReader(bytes)) for every enumerated profile and schedule"})
 	return r
 }
 
